@@ -31,7 +31,7 @@ RULE = ("case = (hop count 1..3, 4..6 nodes, number of circuits, next_hop_timeou
         "fault list on the k-th answer: bit flip in key / auth / identifier / circuit id / candidates, identifier or circuit-id "
         "swap between pending handshakes, replay of an earlier answer, duplicate answer, own ephemeral key with a correct "
         "HMAC; optionally every circuit ends in a required exit the relays have never met, so that the relay's extend handler waits "
-        "0.05-4 s in a simulated DHT peer lookup). Non-trivial = a handshake in which an answer was lost, duplicated, late (after a retry) or manipulated; "
+        "0.05-4 s in a simulated DHT peer lookup; optionally the nodes' join policy (should_join_circuit) suspends for 10-300 ms). Non-trivial = a handshake in which an answer was lost, duplicated, late (after a retry) or manipulated; "
         "distinct by (hops, position, fault kind, hop index, outcome).")
 COMPONENTS = {"real": ["TunnelCommunity create/created/extend/extended handlers and retry caches", "TunnelCrypto (X25519, HMAC, "
                        "HKDF via ipv8_rust_tunnels)", "PythonCryptoEndpoint", "RequestCache time-outs under virtual time",
@@ -44,7 +44,7 @@ ASSUMPTIONS = ["X25519, HMAC and HKDF in ipv8_rust_tunnels are trusted",
 REACH = ["hop_appended_honest", "keys_equal_checked", "retry_happened", "answer_ignored_by_originator", "dup_answer", "fault:flip_key",
          "fault:flip_auth", "fault:flip_ident", "fault:flip_cid", "fault:flip_cand", "fault:swap_ident", "fault:swap_cid", "fault:swap_cid_exit",
          "fault:replay_old", "fault:subst_key", "crafted_answer_rejected", "subst_accepted_but_underivable", "hops:3",
-         "extend_waits_for_peer_lookup"]
+         "extend_waits_for_peer_lookup", "join_policy_suspended"]
 
 KINDS = ["flip_key", "flip_auth", "flip_ident", "flip_cid", "flip_cand", "swap_ident", "swap_cid", "swap_cid_exit", "replay_old",
          "subst_key", "dup_answer"]
@@ -62,6 +62,12 @@ def cases(tier: str, base_seed: int):  # noqa: ANN201
             n += 1
             yield {"seed": base_seed + n, "knobs": {"dup": dup, "lat_jit": 0.02}, "hops": hops, "nodes": 5, "circuits": 3, "nht": nht,
                    "who": None, "faults": [], "blind": delay}
+    # nodes whose join policy (should_join_circuit is an overridable coroutine) takes a while, under duplicated creates
+    for hops in (1, 2):
+        for dup, delay in ((0.6, 0.05), (0.3, 0.3)):
+            n += 1
+            yield {"seed": base_seed + n, "knobs": {"dup": dup, "lat_jit": 0.01}, "hops": hops, "nodes": 5, "circuits": 3, "nht": 10,
+                   "who": None, "faults": [], "join_delay": delay}
     for who in ("node", "wire"):
         for kind in KINDS:
             for hops in (1, 2, 3):
@@ -91,6 +97,8 @@ def cases(tier: str, base_seed: int):  # noqa: ANN201
                 "who": rng.choice(["node", "wire"]) if faults else None, "faults": faults}
         if case["hops"] > 1 and rng.random() < 0.3:
             case["blind"] = rng.choice([0.05, 0.15, 0.5, 1.5, 4.0])
+        if rng.random() < 0.3:
+            case["join_delay"] = rng.choice([0.01, 0.05, 0.3])
         yield case
 
 
@@ -488,6 +496,15 @@ def execute(case: dict) -> dict:  # noqa: C901, PLR0915
             doctor(tw.nodes[1])
         elif who == "wire":
             net.filters.append(wire_filter)
+        if case.get("join_delay"):
+            for node in tw.nodes[1:]:
+                inner_sj = node.ov.should_join_circuit
+
+                async def slow_join(payload, addr, _inner=inner_sj):  # noqa: ANN001, ANN202
+                    world.probe("join_policy_suspended")
+                    await asyncio.sleep(case["join_delay"])
+                    return await _inner(payload, addr)
+                node.ov.should_join_circuit = slow_join
         o = tw.nodes[0]
         circs = []
         blind = case.get("blind") if hops > 1 else None
@@ -526,8 +543,9 @@ def execute(case: dict) -> dict:  # noqa: C901, PLR0915
             world.probe("answer_ignored_by_originator", answers_at_o - len(appended))
         st["ready"] = sum(1 for ci in circs if ci is not None and ci.state == "READY")
         # established hops stay established: every hop whose routed entry matched at append time still matches, as long as the
-        # circuit is READY at its originator and every node on its path is alive
-        for onode_name, circ, idx in verified_routes:
+        # circuit is READY at its originator and every node on its path is alive.  Not judged under datagram loss: a relay that
+        # misses a few keep-alive pings in a row legitimately sweeps its entry, and the destroy it sends may be lost as well.
+        for onode_name, circ, idx in ([] if case["knobs"].get("loss") else verified_routes):
             onode_obj = next(x for x in tw.nodes if x.name == onode_name)
             if circ.circuit_id not in onode_obj.ov.circuits or circ.state != "READY" or idx >= len(circ.hops):
                 continue
